@@ -31,6 +31,10 @@ def parsePyVal (j : Json) : R PyVal :=
           pure (.f (← v.getNat?) asInt (← str j "str").toList)
         | .error _ => do pure (.s (← str j "s").toList)
 
+/-- Bytes elements cross as "y:" + latin-1 text. -/
+def castVal (kind : Char) (t : String) : Val :=
+  if kind == 'S' then .y (t.toList.drop 2) else .o t.toList
+
 /-- `{"k": kind char, "n": item size, "name": str(dtype), "casts": [[pv, text|null], …]}` — the model decides the
     branch (`mkDType`); `casts` (NumPy's own cast of each candidate fill value) is used by pass-through dtypes only. -/
 def parseDType (j : Json) : R DType := do
@@ -41,7 +45,7 @@ def parseDType (j : Json) : R DType := do
     | [pv, v] =>
       let x ← match v with
         | .null => pure none
-        | t => do pure (some (Val.o (← t.getStr?).toList))
+        | t => do pure (some (castVal kind (← t.getStr?)))
       pure ((← parsePyVal pv), x)
     | _ => throw "bad cast row"
   pure (mkDType kind (← nat j "n") casts)
@@ -53,6 +57,7 @@ def parseVal (d : DType) (j : Json) : R Val :=
   | .bool => do pure (.b (← j.getBool?))
   | .str _ => do pure (.s (← j.getStr?).toList)
   | .other _ => do pure (.o (← j.getStr?).toList)
+  | .bytes _ => do pure (.y ((← j.getStr?).toList.drop 2))
 
 def parseVar (j : Json) : R ((String × Series) × String) := do
   match (← j.getArr?).toList with
@@ -69,6 +74,7 @@ def valJson : Val → Json
   | .b v => Json.bool v
   | .s v => Json.str (String.ofList v)
   | .o t => Json.str (String.ofList t)
+  | .y v => Json.str ("y:" ++ String.ofList v)
 
 def errStr : Err → String
   | .keyError => "KeyError" | .coercion => "coercion" | .indexError => "IndexError" | .unmodelled => "unmodelled"
